@@ -289,6 +289,7 @@ class Expect:
         self.error_page = False  # body is Tornado's error page (not compared)
         self.app_cl = False  # Content-Length in the header block was set by the program
         self.auto_etag = None  # ETag computed by Tornado (str) when it applies
+        self.own_etag = None  # Etag set by the program itself, on a response eligible for the 304 check
         self.flushed_early = False  # header block sent by flush() before finish()
         self.bodyless_status = False  # 1xx / 204 / 304
         self.body_on_bodyless = False  # program forced body bytes behind a 1xx/204 header block
@@ -298,9 +299,12 @@ class Expect:
 
 
 class ProgModel:
-    def __init__(self, method, inm=None):
+    def __init__(self, method, inm=None, own_etag_304=False):
         self.method = method
         self.inm = inm
+        # Whether the automatic If-None-Match check also applies to an Etag header the program set itself
+        # is unspecified (EITHER, label own_etag_match): the current tree skips it, the statement allows it.
+        self.own_etag_304 = own_etag_304
         self.e = Expect()
         self._reset_headers()
         self.status, self.reason, self.reason_cmp = 200, "OK", True
@@ -423,6 +427,15 @@ class ProgModel:
                     self.buf = []
                     self.set_status(304)
                     self.e.labels.add("etag_304")
+            elif self.status == 200 and self.method in ("GET", "HEAD"):
+                own = self.h["etag"]
+                self.e.own_etag = own[0] if own else None
+                if any(etag_matches(self.inm, v) for v in own + [",".join(own)]):
+                    self.e.labels.add("own_etag_match")
+                    if self.own_etag_304:
+                        self.buf = []
+                        self.set_status(304)
+                        self.e.labels.add("etag_304")
             if self.status in (204, 304) or 100 <= self.status < 200:
                 if self.buf:  # even an empty chunk counts
                     raise _Raise("other", why="body with %d" % self.status)
@@ -536,8 +549,8 @@ class ProgModel:
             self.finish()
 
 
-def predict(prog, method, inm=None):
-    return ProgModel(method, inm).run(resolve_prog(prog))
+def predict(prog, method, inm=None, own_etag_304=False):
+    return ProgModel(method, inm, own_etag_304).run(resolve_prog(prog))
 
 
 # ----------------------------------------------------------------------------- slow transport
